@@ -87,8 +87,10 @@ package bmtree
 //@ func PathToIndex returns (idx)
 //@   requires 1 <= bitmapSize && wfPath(path, hgt(bitmapSize)) && (bitmapSize >> uint32(PC32(uint32(path)))) & 1 == 1
 //@   ensures idx == preIdx(bitmapSize, path)
+//@   ensures 0 <= idx && idx < bitmapSize
 //@   assigns nothing
 //@   fuel 2
+//@   use preidx_range(bitmapSize, path)
 //@   use pc32_le(uint32(path), int(hgt(bitmapSize)))
 //@   use pc32_lowmask(int(hgt(bitmapSize)))
 //@   use pc64_split(path ^ 0xffffffff00000000)
@@ -158,16 +160,38 @@ package bmtree
 //@     splitentry#5 diffbits 0 32
 //@     revealentry#5 PC32, PC16, PC8
 
+// ---- C04: AllPaths / Decode ----
+// clauses decided here: the result is strictly ascending and every element is a stored node
+// inside [from, to); Decode keeps exactly the AllPaths elements whose PathToIndex bit is set.
+
 //@ func AllPaths returns (paths)
+//@   requires 1 <= bitmapSize
+//@   ensures forall k int :: 0 <= k && k < len(paths) ==> stored(bitmapSize, paths[k]) && from <= paths[k] && paths[k] < to
+//@   ensures forall k int :: 0 <= k && k < len(paths) - 1 ==> paths[k] < paths[k+1]
 //@   ensures fresh(paths)
 //@   assigns nothing
 //@   loop 1
-//@     invariant fresh(paths)
+//@     invariant fresh(paths) && height == hgt(bitmapSize) && 0 <= height && height <= 30 && fullPathCnt == uint64(1) << uint64(height) && fullPathMask == lowmask(int(height)) && t <= fullPathCnt
+//@     invariant forall k int :: 0 <= k && k < len(paths) ==> stored(bitmapSize, paths[k]) && from <= paths[k] && paths[k] < to
+//@     invariant forall k int :: 0 <= k && k < len(paths) - 1 ==> paths[k] < paths[k+1]
+//@     invariant len(paths) > 0 ==> paths[len(paths)-1] < i << 32
 //@   loop 2
-//@     invariant fresh(paths)
+//@     invariant fresh(paths) && height == hgt(bitmapSize) && 0 <= height && height <= 30 && fullPathCnt == uint64(1) << uint64(height) && fullPathMask == lowmask(int(height)) && t <= fullPathCnt && i < t
+//@     invariant -1 <= tz && tz <= height && (tz >= 0 ==> i & lowmask(int(tz)) == 0)
+//@     invariant forall k int :: 0 <= k && k < len(paths) ==> stored(bitmapSize, paths[k]) && from <= paths[k] && paths[k] < to
+//@     invariant forall k int :: 0 <= k && k < len(paths) - 1 ==> paths[k] < paths[k+1]
+//@     invariant len(paths) > 0 ==> paths[len(paths)-1] <= (i << 32) | fullPathMask
+//@     invariant len(paths) > 0 && tz >= 0 ==> paths[len(paths)-1] < (i << 32) | (fullPathMask ^ lowmask(int(tz)))
+//@     use pc32_maskdiff(int(height), int(tz))
 
 //@ func Decode returns (rst)
+//@   requires 1 <= bitmapSize
+//@   ensures forall k int :: 0 <= k && k < len(rst) ==> stored(bitmapSize, rst[k]) && int(preIdx(bitmapSize, rst[k]) >> 6) < len(bm) && (bm[int(preIdx(bitmapSize, rst[k]) >> 6)] >> uint64(preIdx(bitmapSize, rst[k]) & 63)) & 1 == 1
+//@   ensures forall k int :: 0 <= k && k < len(rst) - 1 ==> rst[k] < rst[k+1]
 //@   ensures fresh(rst)
 //@   assigns nothing
 //@   loop 1
-//@     invariant fresh(rst)
+//@     invariant fresh(rst) && -1 <= rangeindex && rangeindex < len(paths) && regof(rst) != regof(paths) && len(rst) <= rangeindex + 1
+//@     invariant forall k int :: 0 <= k && k < len(rst) ==> stored(bitmapSize, rst[k]) && int(preIdx(bitmapSize, rst[k]) >> 6) < len(bm) && (bm[int(preIdx(bitmapSize, rst[k]) >> 6)] >> uint64(preIdx(bitmapSize, rst[k]) & 63)) & 1 == 1
+//@     invariant forall k int :: 0 <= k && k < len(rst) - 1 ==> rst[k] < rst[k+1]
+//@     invariant len(rst) > 0 && rangeindex >= 0 ==> rst[len(rst)-1] <= paths[rangeindex]
